@@ -28,7 +28,6 @@ package dispatch
 // ---- what the scheduler observes of a dispatcher (assumed interface) --------------------------
 // done: the last value Complete() returned (completion is monotone); obsRead / obsWrite: the last
 // values LastReadTime() / LastWriteTime() returned.
-//@ ghost field Dispatcher.done bool
 //@ ghost field Dispatcher.name string
 //@ ghost field Dispatcher.ih core.InfoHash
 //@ ghost field Dispatcher.obsRead time.Time
@@ -44,10 +43,12 @@ package dispatch
 //@   trusted
 //@   ensures result == d.ih
 
+// Whether the torrent is complete is the storage handle's answer (ghost `whole` of the
+// storage.Torrent interface, contracts/externs/storage.spec: it only ever goes from false to true,
+// possibly at the moment it is read - pieces are written by other threads).
 //@ func Dispatcher.Complete
-//@   trusted
-//@   modifies d.done
-//@   ensures result == d.done && (old(d.done) ==> d.done)
+//@   modifies d.torrent.Torrent.whole
+//@   ensures the_handles_answer: result == d.torrent.Torrent.whole && (old(d.torrent.Torrent.whole) ==> d.torrent.Torrent.whole)
 
 // What the scheduler observes (ghost obsRead / obsWrite, used by the preemption tick's rule) is the
 // access watcher's record: the time of the last successfully closed piece reader / the last
@@ -119,10 +120,13 @@ package dispatch
 //@   nopanic
 //@   modifies *
 
+// The completion notice (which makes the scheduler answer the waiting Download calls with
+// success) goes out only for a torrent whose storage handle reports it complete (C17).
 //@ func Dispatcher.handlePiecePayload
 //@   requires dwf(d) && pwf(d, p) && msg != nil && payload != nil
 //@   nopanic
 //@   modifies *
+//@   assert notice_only_when_complete: at Dispatcher.complete#0 :: d.torrent.Torrent.whole
 
 // addPeer: the remote bitfield comes from the peer's handshake; its length is whatever the peer
 // sent. Counters are touched only for indices inside the torrent.
@@ -147,3 +151,10 @@ package dispatch
 //@   requires w != nil && w.Torrent != nil
 //@   ensures watched: result1 == nil ==> result0 != nil && dyntype(result0) == typeid(*pieceReaderCloseWatcher) && unbox(result0, *pieceReaderCloseWatcher).w == w
 //@   ensures index_in_torrent: result1 == nil ==> 0 <= piece && piece < w.Torrent.npieces
+
+// A dispatcher created for a torrent that is already complete sends the completion notice at once;
+// for any other torrent it does not (C17).
+//@ func New
+//@   rules_only
+//@   modifies *
+//@   assert notice_only_when_complete: at Dispatcher.complete#0 :: t.whole
